@@ -39,11 +39,18 @@ class Fn:
         self.nodes = {}
         self.block_of = {}
         self.pos_of = {}
+        self.const_init = {}        # vid of a const-qualified local -> its initialiser (element id or inline node)
         for b in f.get('blocks', []):
             for pos, e in enumerate(b['el']):
                 self.nodes[e['i']] = e
                 self.block_of[e['i']] = b['id']
                 self.pos_of[e['i']] = pos
+                if e['k'] == 'DeclRefExpr' and e.get('cv') is not None and e.get('v') is None:
+                    e['v'] = e['cv']            # a named integral constant is a constant
+                if e['k'] == 'DeclStmt':
+                    for d in e.get('decls', []):
+                        if d.get('const') and d.get('init') is not None and not d.get('sl') and not d.get('t', '').endswith('&'):
+                            self.const_init[d['vid']] = d['init']
         # `if (a || (b && c))`: the terminator of the last short-circuit block reports the whole
         # logical expression; the condition actually branched on is its right-most operand.
         for b in f.get('blocks', []):
@@ -188,12 +195,17 @@ class Fn:
         return i not in self.parents()
 
     # -- rendering ---------------------------------------------------------------------
-    def render(self, n, depth=0):
+    def render(self, n, depth=0, resolve=False):
         n = self.N(n)
         if depth > 40:
             return '...'
         k = n['k']
-        r = lambda x: self.render(x, depth + 1)
+        r = lambda x: self.render(x, depth + 1, resolve)
+        if resolve and k == 'DeclRefExpr' and n.get('vid') in self.const_init and n.get('v') is None and depth < 30:
+            # a const local stands for its initialiser (robust against hoisting an expression into a named const local)
+            return self.render(self.strip_all_casts(self.const_init[n['vid']]), depth + 6, resolve)
+        if resolve and k == 'DeclRefExpr' and n.get('v') is not None and n.get('vid') is None and n.get('dk') == 'Var':
+            return str(n['v'])
         c = n.get('c') or []
         if k in TRANSPARENT and c:
             return r(c[0])
